@@ -47,7 +47,7 @@ func (w *c09world) handler(rw http.ResponseWriter, q *http.Request, rec *rig.Ori
 		rw.WriteHeader(599)
 		return
 	}
-	rec.Note = id
+	rec.SetNote(id)
 	if f != nil {
 		f(q)
 	}
